@@ -35,13 +35,15 @@ const SigProbeBindRace = "C16-second-start-between-probe-and-listen"
 
 // Case is one hold point.
 type Case struct {
-	K     int   `json:"k,omitempty"` // hold point (0: drawn / all)
-	Retry bool  `json:"retry,omitempty"`
+	K     int  `json:"k,omitempty"` // hold point (0: drawn / all)
+	Retry bool `json:"retry,omitempty"`
 	// FailAccept: the first accept(2) of the first run's status socket fails once
 	// with EMFILE (a transient fault); the socket must stay in place — it is the lock
 	FailAccept bool `json:"failAccept,omitempty"`
 	failAt     int
-	Picks []int `json:"picks,omitempty"`
+	Picks      []int `json:"picks,omitempty"`
+	// Spawn: hold at the n-th execve of the first run instead of at call K (replay files)
+	Spawn int `json:"spawn,omitempty"`
 	// Spelling: how the second command line names the same file: 0 as the first
 	// did, 1 doubled slash, 2 "/./", 3 "x/../", 4 relative to the working directory
 	Spelling int `json:"spelling,omitempty"`
@@ -204,6 +206,24 @@ func check(t rep.Fataler, c Case) {
 	}
 	var ks []int
 	switch {
+	case c.Spawn != 0:
+		// the n-th process spawn of the first run (negative: counted from the
+		// last): robust against shifts of the absolute call numbers
+		var ex []int
+		for _, cl := range dry.Calls {
+			if cl.Name == "execve" {
+				ex = append(ex, cl.N)
+			}
+		}
+		i := c.Spawn - 1
+		if c.Spawn < 0 {
+			i = len(ex) + c.Spawn
+		}
+		if i < 0 || i >= len(ex) {
+			rep.Inconclusive("no such spawn in the dry run")
+			return
+		}
+		ks = []int{ex[i]}
 	case c.K > 0:
 		ks = []int{c.K}
 	case rep.Thorough():
